@@ -356,6 +356,36 @@ def cd_case(rep, drv, rng):
 		rep.diff('meio_by_coordinate_descent', '; '.join(bad[:3]), case, py={'S': str(S), 'cost': str(cost)}, oracle=True, theorem=THEOREM)
 
 
+def cd_ridge_case(rep, k):
+	"""Coupled, non-smooth convex objectives (a ridge along which single-coordinate moves do not help): where coordinate descent ends depends on
+	where it starts, so the explicit `initial_solution` matters -- started at a vector it cannot improve on, it returns a cost no worse than that
+	vector's (each objective is convex, hence unimodal along every coordinate)."""
+	from stockpyl.meio_general import meio_by_coordinate_descent
+	from stockpyl.instances import load_instance
+	with warnings.catch_warnings():
+		warnings.simplefilter('ignore')
+		net = load_instance('example_6_1')
+	ids = sorted(n.index for n in net.nodes)
+	c = [5.0, 3.0 + k, 6.0 - k % 3][:len(ids)] + [4.0] * max(0, len(ids) - 3)
+	objs = (('sum |x_i - c_i| + 3 max_i |x_i - c_i - (x_1 - c_1)|', lambda S: sum(abs(S[n] - c[i]) for i, n in enumerate(ids)) + 3 * max(abs((S[n] - c[i]) - (S[ids[0]] - c[0])) for i, n in enumerate(ids))),
+			('coupled quadratic', lambda S: sum((S[n] - c[i]) ** 2 for i, n in enumerate(ids)) + 1.9 * sum((S[ids[i]] - c[i]) * (S[ids[i + 1]] - c[i + 1]) for i in range(len(ids) - 1))))
+	for nm, f in objs:
+		start = {n: c[i] for i, n in enumerate(ids)}          # the global minimiser (cost 0), strictly inside the box [0, 10]^n
+		case = {'objective': nm, 'centre': c, 'start': {str(a): b for a, b in start.items()}}
+		rep.case('meio_by_coordinate_descent', case, nontrivial=True); rep.count('cd:ridge-start-at-the-minimiser')
+		try:
+			with warnings.catch_warnings():
+				warnings.simplefilter('ignore')
+				S, cost = meio_by_coordinate_descent(net, initial_solution=dict(start), search_lo={n: 0 for n in ids}, search_hi={n: 10 for n in ids},
+													  objective_function=f, tol=1e-4, line_search_tol=1e-5)
+			f0 = f(start)
+			if cost > f0 + 1e-3 or abs(cost - f(S)) > 1e-9 * max(1, abs(cost)):
+				rep.diff('meio_by_coordinate_descent', '%s: started at %s (cost %r) the descent returns %s with cost %r -- worse than the starting vector' % (nm, start, f0, dict(S), cost),
+						 case, py={'S': str(S), 'cost': str(cost)}, oracle=True, theorem=THEOREM)
+		except Exception as e:
+			rep.diff('meio_by_coordinate_descent', '%s raised %s' % (nm, err_enum(e)), case, oracle=True, theorem=THEOREM)
+
+
 def grid_case(rep, drv, rng):
 	from stockpyl.meio_general import truncate_and_discretize
 	lo = rng.choice([None, 0, -3, 2, 1.5]); hi = rng.choice([None, 0, 5, 10, 7.5])
@@ -396,6 +426,8 @@ def run(rep, drv):
 		enum_case(rep, drv, rng)
 	for k in range(100 if th else 12):
 		enum_sim_case(rep, drv, rng)
+	for k in range(3):
+		cd_ridge_case(rep, k)
 	for k in range(300 if th else 60):
 		cd_case(rep, drv, rng)
 	for k in range(1500 if th else 300):
